@@ -1161,3 +1161,46 @@ def _img_wrapper_case(direction):
 
 CASES['dd.bdd.image!observed'] = ('dd.bdd.image!observed', _img_wrapper_case('image'))
 CASES['dd.bdd.preimage!observed'] = ('dd.bdd.preimage!observed', _img_wrapper_case('preimage'))
+
+
+# ---- dd.autoref views and constants -------------------------------------------------------------------------------------------
+def _keep(env, *hs):
+    env.setdefault('result_handles', []).extend(h for h in hs if h is not None)
+
+
+def _succ_ret(env, r):
+    i, v, w = r
+    _keep(env, v, w)
+    hz = lambda h: (IntVal(h.node), BoolVal(False)) if h is not None else (IntVal(0), BoolVal(True))  # noqa
+    return (IntVal(i), hz(v), hz(w))
+
+
+def _opt_handle_ret(env, r):
+    _keep(env, r)
+    return (IntVal(r.node), BoolVal(False)) if r is not None else (IntVal(0), BoolVal(True))
+
+
+FSELF = lambda e: dict(self=IntVal(e['x'].node), self_obj=ObjV('dd.autoref.Function', {'bdd': OWNER}))  # noqa
+
+CASES['dd.autoref.BDD.succ'] = ('dd.autoref.BDD.succ', aref_case(
+    'dd.autoref.BDD.succ', lambda e, r: e.update(u=pick_h(e, r)), lambda e: e['m'].succ(e['u']),
+    lambda e: dict(self=OWNER, **zhandle('u', e['u'])), lambda e: dict(call='autoref.succ', u=e['u'].node), ret=_succ_ret))
+for _w in ('low', 'high'):
+    CASES['dd.autoref.Function.' + _w] = ('dd.autoref.Function.' + _w, aref_case(
+        'dd.autoref.Function.' + _w, lambda e, r: e.update(x=pick_h(e, r)), (lambda w: lambda e: getattr(e['x'], w))(_w),
+        FSELF, (lambda w: lambda e: dict(call='Function.' + w, self=e['x'].node))(_w), ret=_opt_handle_ret))
+for _w, _conv in (('level', lambda env, r: IntVal(r)), ('ref', lambda env, r: IntVal(r)), ('negated', lambda env, r: BoolVal(bool(r)))):
+    CASES['dd.autoref.Function.' + _w] = ('dd.autoref.Function.' + _w, aref_case(
+        'dd.autoref.Function.' + _w, lambda e, r: e.update(x=pick_h(e, r)), (lambda w: lambda e: getattr(e['x'], w))(_w),
+        FSELF, (lambda w: lambda e: dict(call='Function.' + w, self=e['x'].node))(_w), ret=_conv))
+CASES['dd.autoref.Function.var'] = ('dd.autoref.Function.var', aref_case(
+    'dd.autoref.Function.var', lambda e, r: e.update(x=pick_h(e, r)), lambda e: e['x'].var, FSELF,
+    lambda e: dict(call='Function.var', self=e['x'].node),
+    ret=lambda env, r: (NAMEZ[r], BoolVal(False)) if r is not None else (NAMEZ['zz'], BoolVal(True))))
+for _nm in ('true', 'false'):
+    CASES['dd.autoref.BDD.' + _nm] = ('dd.autoref.BDD.' + _nm, aref_case(
+        'dd.autoref.BDD.' + _nm, lambda e, r: None, (lambda nm: lambda e: getattr(e['m'], nm))(_nm),
+        lambda e: dict(self=OWNER), (lambda nm: lambda e: dict(call='autoref.' + nm))(_nm)))
+CASES['dd.autoref.BDD._add_int'] = ('dd.autoref.BDD._add_int', aref_case(
+    'dd.autoref.BDD._add_int', lambda e, r: e.update(i=r.choice([h.node for h in e['handles']] + [-h.node for h in e['handles']] + [1, -1, 9999])),
+    lambda e: e['m']._add_int(e['i']), lambda e: dict(self=OWNER, i=zint(e['i'])), lambda e: dict(call='autoref._add_int', i=e['i'])))
